@@ -60,8 +60,12 @@ def cut_sac_policy(pol, feat=2):
 
 def uf_terms(it, name, oi=0):
     """result terms of the applications of uf `name` recorded by the interpreter, in element order"""
-    items = [(idx, t) for (n, o, idx, ops, t) in it.uf_apps if n == name and o == oi]
-    return [t for _, t in items]
+    seen, out = set(), []
+    for (n, o, idx, ops, t) in it.uf_apps:
+        if n == name and o == oi and t.get_id() not in seen:     # a second application to the same operands is the same term
+            seen.add(t.get_id())
+            out.append(t)
+    return out
 
 
 def primitive_names(jaxpr, acc=None):
